@@ -10,7 +10,7 @@ PROPS = {"C18": dict(
           "small rounds, optional crash after the lock commit = lock ahead of storage) or rendered with the reference model (sizes up to >65536), "
           "plus crashed-upload leftovers, earlier partial GC, and rendered mirror directories; tool run in-process or as the built binary. "
           "non-trivial = directory in which >=1 partial tile was eligible for deletion AND >=1 right-edge partial with an existing full sibling "
-          "(or a decoy: orphan partial / odd name left of the edge) had to be preserved; distinct = hash of the canonical case descriptor; also: configurations with a log and a mirror mostly run as the built binary; witness directories carry the witness' own <origin hash>/checkpoint next to mirror/<origin hash>/"),
+          "(or a decoy: orphan partial / odd name left of the edge) had to be preserved; distinct = hash of the canonical case descriptor; also: configurations with a log and a mirror mostly run as the built binary; witness directories carry the witness' own <origin hash>/checkpoint next to mirror/<origin hash>/; two or three directories per run (several mirrors in one witness directory, unpublished ones among them; several logs); binary-only fallback build when the tool's helpers were refactored"),
     assumptions=["the harness' own tile-path reader and right-edge arithmetic (c18_oracle.go) and the vfref reference model are correct",
                  "directories contain regular files and directories only (no symlinks/devices): LocalBackend never creates any",
                  "nobody else writes to the directory while the tool runs"],
